@@ -192,11 +192,15 @@ def run_conc(pid, tier, seed, plan):
         runners = runners + stress
         for i, sc in enumerate(plan.get("stress_scenarios", [])):
             for j in range(len(sexes)):
+                if stress[j].get("lacks") and any(op in stress[j]["lacks"] for th in sc["scenario"].split("|") for op in th.split(",")):
+                    continue      # this runner's class does not have one of the scenario's operations
+                if bool(stress[j].get("own_scenarios")) != bool(sc.get("own")):
+                    continue      # runners with their own scenario syntax (lock_stress) take only the scenarios written for them
                 if (i + j) % max(1, sc.get("every", 1)) == 0:
                     tasks.append((sc["scenario"], ["stress", seed * 100 + i, sc.get("count", 150 if quick else 3000)], "x%02d-%d" % (i, j), base + j))
 
         def work(t):
-            r = explore_scenario(exes[t[3]], t[0], t[1], plan["trace_module"], wd, t[2])
+            r = explore_scenario(exes[t[3]], t[0], t[1], runners[t[3]].get("trace_module", plan["trace_module"]), wd, t[2])
             r["runner"] = t[3]
             for x in r["rejections"]:
                 x["runner"] = t[3]
